@@ -119,7 +119,9 @@ Fresh == "n" \o ToString(Len(hist) + 1)
 
 (* ---- menus ---- *)
 IdSpellings == { <<NamePL("ex", X)>>, <<NameQN("zz", A, X)>>, <<NameUri(A \o X)>>,
-                 <<NameQN("ex", A, BX)>>, <<NameQN("q", AB, X)>> }
+                 <<NameQN("ex", A, BX)>>, <<NameQN("q", AB, X)>>,
+                 <<NameQN("", C, X)>>,        \* a default namespace the container adopts from the name
+                 <<NameBare(X)>> }            \* ... or has been given (SetDefault in the c18 menu)
 RecMenu ==
   CASE Scenario \in {"c18", "c18b"} ->
          { [k |-> "entity", id |-> i, formals |-> <<>>, extras |-> <<>>] : i \in IdSpellings }
@@ -249,7 +251,8 @@ Menu ==
   CASE Scenario = "c04" -> IF Compared THEN {} ELSE ActsNewRec \cup ActsBundle04 \cup ActsCompare
     [] Scenario = "c04b" -> ActsEdit04 \cup (IF Compared THEN {} ELSE ActsCompare)
     [] Scenario = "c04c" -> IF Compared THEN {} ELSE ActsNewRec \cup ActsGet04 \cup ActsCompare
-    [] Scenario \in {"c18", "c18b"} -> ActsNewRec \cup ActsAddRecord \cup ActsUpdate \cup ActsAddBundle
+    [] Scenario \in {"c18", "c18b"} -> {[op |-> "SetDefault", h |-> h, u |-> C] : h \in {x \in Live : ms.mgr[ms.con[x].mgr].dflt \in {NONE, C}}}
+                           \cup ActsNewRec \cup ActsAddRecord \cup ActsUpdate \cup ActsAddBundle
                            \cup ActsDerive \cup ActsGet
     [] Scenario = "c09b" -> ActsNewRec \cup ActsUpdate \cup {a \in ActsDerive : a.op = "Flattened"}
     [] Scenario = "c09c" -> ActsNewRec \cup {a \in ActsDerive : a.op = "Flattened"} \cup {a \in ActsUpdate : a.h = "d1"}
